@@ -123,18 +123,40 @@ theorem released_when_idle {proc : Nat → Nat} {s : State} (hr : Reachable proc
   rw [ht, ho] at this
   simpa [TState.held] using this.symm
 
-/-- OWN REPLY: every reply a synchronized call has read is the reply to the query that same call
-    wrote (FIFO terminal, any scheduling of the replies). -/
+/-- OWN REPLY: every reply part a thread has read is a part of the reply to the query that same
+    thread wrote (FIFO terminal, replies in several parts, any scheduling of their delivery, the
+    query and the reads possibly made by different nested calls of one compound section). -/
 theorem own_reply {proc : Nat → Nat} {s : State} (hr : Reachable proc s) :
-    ∀ e ∈ s.log, e.2.1 = e.2.2 :=
+    ∀ e ∈ s.log, e.2.2.1 = e.2.1 :=
   hr.inv.tlog
 
-/-- NO REPLY LOST OR LEFT OVER: the terminal's queues hold exactly the query of the thread that
-    is waiting for a reply, and nothing when nobody waits. -/
+/-- NO REPLY LOST, NONE LEFT OVER, NONE DELIVERED TO ANOTHER CALLER: the terminal's queues
+    (delivered ++ undelivered) hold exactly the not-yet-read parts of the reply to the one thread
+    that has a reply outstanding — in order — and nothing when no thread has. -/
 theorem no_reply_lost {proc : Nat → Nat} {s : State} (hr : Reachable proc s) :
-    (∀ u q, atR (s.thr u) = some q → s.repl ++ s.pend = [q]) ∧
-    ((∀ u, atR (s.thr u) = none) → s.repl ++ s.pend = []) :=
-  ⟨hr.inv.tsome, hr.inv.tnone⟩
+    (∀ u q k, s.outq u = some (q, k) → s.repl ++ s.pend = partsFrom q k) ∧
+    ((∀ u, s.outq u = none) → s.repl ++ s.pend = []) :=
+  ⟨fun u q k h => (hr.inv.tsome u q k h).1, hr.inv.tnone⟩
+
+/-- COMPOUND SECTION: a thread that is not inside a synchronized section has read its reply
+    completely (query + drain happen under one outermost acquisition) … -/
+theorem section_drained {proc : Nat → Nat} {s : State} (hr : Reachable proc s) {t : Nat}
+    (ht : (s.thr t).inside = false) : s.outq t = none := by
+  cases ho : s.outq t with
+  | none => rfl
+  | some v =>
+    have := hr.inv.tin t (by rw [ho]; simp)
+    rw [ht] at this; cases this
+
+/-- … hence at most one thread (of all processes) has a reply outstanding at any time … -/
+theorem one_outstanding {proc : Nat → Nat} {s : State} (hr : Reachable proc s) {t u : Nat}
+    (ht : s.outq t ≠ none) (hu : s.outq u ≠ none) : t = u :=
+  hr.inv.mutex (hr.inv.tin t ht) (hr.inv.tin u hu)
+
+/-- … and when every thread is idle nothing is left unread in the terminal's queues. -/
+theorem idle_nothing_unread {proc : Nat → Nat} {s : State} (hr : Reachable proc s)
+    (hi : ∀ t, s.thr t = .idle) : s.repl ++ s.pend = [] :=
+  hr.inv.tnone (fun u => section_drained hr (by rw [hi u]; rfl))
 
 /-- schedules of the driver produce reachable states, so the theorems apply to every trace the
     correspondence check replays on the real code -/
@@ -167,8 +189,18 @@ example : (step (runSched (init raceProc) raceSched).1 0 .adv).isSome = false :=
 /-- a nested call inside the child: hypotheses of `reentrant` are satisfiable -/
 example : (step (runSched (init raceProc) (raceSched ++ [(2, .call), (2, .adv)])).1 2 .adv).isSome
     = true := by decide
-/-- a query / reply round trip is reachable, so `own_reply` speaks about a non-empty log -/
+/-- a query / two-part reply round trip is reachable, so `own_reply` speaks about a non-empty log -/
 example : (runSched (init raceProc)
-    (raceSched ++ [(2, .adv), (0, .respond), (2, .adv)])).1.log = [(2, 0, 0)] := by decide
+    (raceSched ++ [(2, .wr), (0, .respond), (2, .rd), (0, .respond), (2, .rd)])).1.log
+    = [(2, 0, (0, 0)), (2, 0, (0, 1))] := by decide
+/-- the compound-section rule bites: with the tail of the reply outstanding the outermost
+    activation cannot return (this is the step a `get_terminal_name_version` without its outer
+    `with _tty_lock, _tty_lock:` would take) … -/
+example : (step (runSched (init raceProc)
+    (raceSched ++ [(2, .wr), (0, .respond), (2, .rd)])).1 2 .adv).isSome = false := by decide
+/-- … while a nested activation (`query_terminal`, `read_tty`) may return with it outstanding -/
+example : (step (runSched (init raceProc)
+    (raceSched ++ [(2, .call), (2, .adv), (2, .adv), (2, .adv), (2, .adv),
+                   (2, .wr), (0, .respond), (2, .rd)])).1 2 .adv).isSome = true := by decide
 
 end TIV.C14
